@@ -187,6 +187,11 @@ fn container_set(sub: &str, thorough: bool) -> Vec<(String, String, Comp, Packag
     }
     // concat of the three separate files
     v.push(("multi-zstd-concat".into(), "multi".into(), Comp::Zstd(5), Packaging::NoConcat, true));
+    // concat with the manifest and the directory pack given twice (the pack table of the file
+    // lists more packs than there are distinct ones; the content pack comes last)
+    if sub == "c04" {
+        v.push(("multi-none-concat-dup".into(), "multi".into(), Comp::None, Packaging::NoConcat, true));
+    }
     // several content packs inside one file, all recorded with the same location string (a check
     // or a lookup that remembers what it did per location string treats them as one pack)
     if sub == "c04" || (sub == "c05" && thorough) {
@@ -229,7 +234,15 @@ fn build_set(base: &Path, sub: &str, thorough: bool) -> Result<Vec<ContainerDesc
         if concat {
             let outp = dir.join("cat.jbk");
             let up = camino::Utf8PathBuf::from_path_buf(outp.clone()).unwrap();
-            jubako::tools::concat(&c.files, &up).map_err(|e| format!("concat: {e}"))?;
+            let inputs: Vec<PathBuf> = if name.ends_with("-dup") {
+                // every file but the one holding the content pack, then all of them
+                let content: Vec<PathBuf> = c.files.iter().filter(|f| f.extension().map(|e| e == "jbkc").unwrap_or(false)).cloned().collect();
+                let others: Vec<PathBuf> = c.files.iter().filter(|f| !content.contains(f)).cloned().collect();
+                others.iter().chain(others.iter()).chain(content.iter()).cloned().collect()
+            } else {
+                c.files.clone()
+            };
+            jubako::tools::concat(&inputs, &up).map_err(|e| format!("concat: {e}"))?;
             if !name.ends_with("-beside") {
                 for f in &c.files {
                     let _ = std::fs::remove_file(f);
@@ -1523,7 +1536,11 @@ fn main() {
                                 rep.machinery_errors.push(format!("{e} in {cj}"));
                             }
                         }
-                        let exempt = region.contains("exempt");
+                        // a pack given twice to concat lies twice in the file and the readers keep one
+                        // copy per identity: the bytes of the shadowed copy are covered by no check the
+                        // property names. In the container built for that, only the content pack
+                        // (single, last in the file) is swept.
+                        let exempt = region.contains("exempt") || (set[c.container].desc.name.ends_with("-dup") && !region.starts_with("content:"));
                         let chk = &v["check"];
                         let mut bad = vec![];
                         for level in ["pack", "file", "container"] {
